@@ -13,6 +13,9 @@ import (
 	"context"
 	"fmt"
 	"math/rand"
+	"runtime"
+	"sort"
+	"strings"
 	"sync"
 	"sync/atomic"
 	"testing"
@@ -310,4 +313,168 @@ func init() {
 			<-done
 		}
 	}
+}
+
+// mw-close: writers blocked in a blocking-write association (the peer's window is full, nobody reads) while Close,
+// Abort or Shutdown is called concurrently with further writers ENTERING WriteSCTP. Every write call must return
+// once the association is gone. The only verdict is a certified stuck call: a writer still inside WriteSCTP three
+// seconds after the teardown call returned, seen at the same place in two stack samples one second apart.
+func init() {
+	vfModes["mw-close"] = func(t *testing.T) {
+		seed := int64(vfEnvInt("VF_SEED", 1))
+		shard := vfEnvInt("VF_SHARD", 0)
+		n := vfEnvInt("VF_N", 20)
+		out, err := vfNewTrace(vfOut(fmt.Sprintf("mw-close-%d.ndjson", shard)))
+		if err != nil {
+			t.Fatal(err)
+		}
+		defer out.close()
+		for k := 0; k < n; k++ {
+			r := rand.New(rand.NewSource(seed*7907 + int64(shard)*389 + int64(k)))
+			il := r.Intn(2) == 0
+			how := []string{"close", "abort", "shutdown", "connclose"}[k%4]
+			label := fmt.Sprintf("mw-close-%s-il%v#%d-%d-%d", how, il, seed, shard, k)
+			mem, _ := vfNewTrace("")
+			w := vfNewWorld(vfWorldOpt{Label: label, Trace: mem, RT: true, NoSnap: true,
+				A: vfEpCfg{InitTSN: r.Uint32(), Tag: 0xA4, IL: il, BlockWrite: true}, B: vfEpCfg{InitTSN: r.Uint32(), Tag: 0xB4, IL: il, Server: true, Buf: 4096}})
+			stopNet := make(chan struct{})
+			var netWG sync.WaitGroup
+			netWG.Add(1)
+			go func() {
+				defer netWG.Done()
+				for {
+					select {
+					case <-stopNet:
+						return
+					case <-w.activity:
+					case <-time.After(300 * time.Microsecond):
+					}
+					for _, p := range w.pending(-1) {
+						if q := w.take(p.id); q != nil {
+							w.push(1-q.from, q.raw)
+						}
+					}
+				}
+			}()
+			w.start(1)
+			w.start(0)
+			est := false
+			for i := 0; i < 5000 && !est; i++ {
+				time.Sleep(time.Millisecond)
+				w.mu.Lock()
+				est = w.ep[0].connRet && w.ep[1].connRet && w.ep[0].connErr == nil && w.ep[1].connErr == nil
+				w.mu.Unlock()
+			}
+			if !est {
+				t.Fatalf("%s: associations did not establish", label)
+			}
+			out.emit(map[string]any{"ev": "mwcfg", "label": label, "il": il, "writers": 6})
+			w.open(0, 1, 51)
+			w.open(0, 2, 51)
+			a := w.ep[0].a
+			var inFlight int64
+			var wrWG sync.WaitGroup
+			stopWriters := make(chan struct{})
+			for g := 0; g < 6; g++ {
+				sid := 1 + g%2
+				st := w.stream(0, sid)
+				wrWG.Add(1)
+				go func() {
+					defer wrWG.Done()
+					buf := make([]byte, 1000)
+					for {
+						select {
+						case <-stopWriters:
+							return
+						default:
+						}
+						atomic.AddInt64(&inFlight, 1)
+						_, err := st.WriteSCTP(buf, 51)
+						atomic.AddInt64(&inFlight, -1)
+						if err != nil {
+							return
+						}
+					}
+				}()
+			}
+			time.Sleep(time.Duration(2000+r.Intn(6000)) * time.Microsecond)
+			switch how {
+			case "close":
+				a.Close() //nolint:errcheck
+			case "abort":
+				a.Abort("mw-close")
+			case "shutdown":
+				ctx, cancel := context.WithTimeout(context.Background(), 300*time.Millisecond)
+				a.Shutdown(ctx) //nolint:errcheck
+				cancel()
+				a.Close() //nolint:errcheck
+			case "connclose":
+				w.ep[0].conn.Close()
+			}
+			close(stopWriters)
+			done := make(chan struct{})
+			go func() { wrWG.Wait(); close(done) }()
+			stuck := false
+			select {
+			case <-done:
+			case <-time.After(3 * time.Second):
+				s1 := vfInWrite()
+				time.Sleep(time.Second)
+				s2 := vfInWrite()
+				if len(s1) > 0 && strings.Join(s1, "|") == strings.Join(s2, "|") {
+					ls := []any{}
+					for _, x := range s1 {
+						ls = append(ls, x[strings.Index(x, " ")+1:])
+					}
+					out.emit(map[string]any{"ev": "stuck", "what": "WriteSCTP after " + how, "stacks": ls})
+					stuck = true
+				} else {
+					select {
+					case <-done:
+					case <-time.After(20 * time.Second):
+						t.Fatalf("%s: writers did not return, but no stable stuck call either: %v / %v", label, s1, s2)
+					}
+				}
+			}
+			out.emit(map[string]any{"ev": "mwend", "sender_idle": false, "oks": 0})
+			w.ep[0].conn.Close()
+			w.ep[1].conn.Close()
+			w.ep[1].a.Close() //nolint:errcheck
+			close(stopNet)
+			netWG.Wait()
+			if stuck {
+				return // the stuck goroutines stay behind; end this shard here
+			}
+		}
+	}
+}
+
+// vfInWrite lists goroutines that are inside Stream.WriteSCTP ("<goroutine id> <innermost pion function>").
+func vfInWrite() []string {
+	buf := make([]byte, 1<<22)
+	n := runtime.Stack(buf, true)
+	res := []string{}
+	for _, g := range strings.Split(string(buf[:n]), "\n\n") {
+		if !strings.Contains(g, "(*Stream).WriteSCTP") {
+			continue
+		}
+		lines := strings.Split(g, "\n")
+		fn := ""
+		for _, l := range lines[1:] {
+			if strings.Contains(l, "pion/sctp.") && !strings.Contains(l, "created by") && !strings.Contains(l, ".vf") {
+				fn = strings.TrimSpace(l)
+				if i := strings.LastIndex(fn, "("); i > 0 {
+					fn = fn[:i]
+				}
+				break
+			}
+		}
+		st := lines[0]
+		if i := strings.Index(st, "["); i >= 0 {
+			st = st[i:]
+		}
+		res = append(res, strings.Fields(lines[0])[1]+" "+strings.TrimPrefix(fn, "github.com/pion/sctp.")+" "+st)
+	}
+	sort.Strings(res)
+	return res
 }
